@@ -51,3 +51,69 @@ Theorem C06_exponential_initial_delay_refuted :
   exists rng seed w, wait_eval rng seed w 1 == 2 /\ doc_delay rng seed w 1 == 1.
 Proof. exists (fun _ => 0%Q), None, (WExp 1 2 60 0). vm_compute. split; reflexivity. Qed.
 Print Assumptions C06_exponential_initial_delay_refuted.
+
+(* ------------------------------------------------------------------------------------------------------------ *)
+(* The run loop (Model/Runner.v, tied to _ControlLoopRunner by the runner differential): every schedule           *)
+(* ------------------------------------------------------------------------------------------------------------ *)
+From Coq Require Import Sorting.Sorted.
+From WF Require Import Proofs.RunnerFire.
+
+(* a retry the policy delays by d > 0, decided at clock reading c, is entered into the wake-up list for time c + d;
+   it is NOT put into the tick buffer (nothing can process it before it fires) *)
+Theorem C06_run_loop_delayed_retry_is_scheduled_at_failure_time_plus_delay : forall r a target d,
+  Runner.outcome r = ORunning -> 0 < d ->
+  wakeups (do_command r (CQueue a target (Some d))) = insert_wakeup (clock r + d, wseq r, TAdd a target) (wakeups r) /\
+  tbuf (do_command r (CQueue a target (Some d))) = tbuf r /\
+  wseq (do_command r (CQueue a target (Some d))) = wseq r + 1.
+Proof. exact delayed_queue_is_scheduled. Qed.
+Print Assumptions C06_run_loop_delayed_retry_is_scheduled_at_failure_time_plus_delay.
+
+(* for every workflow state, start event, policy oracle and schedule of environment actions: every wake-up that
+   has fired (ghost firelog: the time it was scheduled for, its tick, the clock reading when it was moved to the tick
+   buffer) fired at or after its time - no retry ever starts early *)
+Theorem C06_run_loop_no_wakeup_fires_early : forall P s e now acts,
+  Forall (fun f : Z * tick * Z => fst (fst f) <= snd f) (firelog (run_at P s e now acts)).
+Proof. exact run_wakeups_never_fire_early. Qed.
+Print Assumptions C06_run_loop_no_wakeup_fires_early.
+
+(* a wake-up leaves the list only by firing (the ghost log records exactly what left), and when the loop looks at the
+   list everything that is due fires: what stays behind lies strictly in the future *)
+Theorem C06_run_loop_wait_step_fires_exactly_what_is_due : forall r c r2,
+  Fire_ok r -> wait_step r c = Some r2 ->
+  Fire_ok r2 /\
+  (wakeups r2 = wakeups r /\ firelog r2 = firelog r \/
+   exists fired, fired <> [] /\ wakeups r = fired ++ wakeups r2 /\
+                 tbuf r2 = tbuf r ++ map (fun w => snd w) fired /\
+                 firelog r2 = firelog r ++ map (fun w : Z * Z * tick => (fst (fst w), snd w, clock r)) fired /\
+                 Forall (fun w => fst (fst w) <= clock r) fired /\ Forall (fun w => clock r < fst (fst w)) (wakeups r2)).
+Proof. exact wait_fire. Qed.
+Print Assumptions C06_run_loop_wait_step_fires_exactly_what_is_due.
+
+Theorem C06_run_loop_invariant_is : forall r,
+  Fire_ok r <-> Forall (fun f : Z * tick * Z => fst (fst f) <= snd f) (firelog r) /\
+                StronglySorted (fun a b : Z * Z * tick => fst (fst a) <= fst (fst b)) (wakeups r).
+Proof. intros r. split; exact (fun H => H). Qed.
+Print Assumptions C06_run_loop_invariant_is.
+
+Theorem C06_run_loop_invariant_holds : forall P s e now acts, Fire_ok (run_at P s e now acts).
+Proof. exact run_fire_ok. Qed.
+Print Assumptions C06_run_loop_invariant_holds.
+
+(* non-vacuity: a step fails at clock 100, its policy says "retry after 8": nothing fires while the clock stands at
+   104; at 108 the retry fires, logged as (108, _, 108) *)
+Example C06_run_loop_nonvacuous :
+  let c acc n := {| accepts := acc; nworkers := n; pol := Some 1 |} in
+  let wk acc n := {| w_cfg := c acc n; queue := []; inprogress := []; collected := []; waiters := [] |} in
+  let s0 := {| running := true;
+               cfg := {| c_handler_for := []; c_handlers := []; c_start := [0]; c_stop := [9];
+                         c_inputreq := [8]; c_ty_stepfailed := 7 |};
+               workers := [(1, wk [0] 1%nat)] |} in
+  let ev ty i := {| ety := ty; eid := i; eattrs := [] |} in
+  let x := {| xty := 1; xmsg := 1 |} in
+  let P : policy := fun _ _ f _ => if Z.ltb f 3 then PRetry 8 else PStop in
+  let r1 := run_at P s0 (ev 0 1) 100 [AWorkerDone 1 0%nat [] [RFailed x 100]; AAdvance 4] in
+  let r2 := run_at P s0 (ev 0 1) 100 [AWorkerDone 1 0%nat [] [RFailed x 100]; AAdvance 4; AAdvance 4] in
+  map (fun f => (fst (fst f), snd f)) (firelog r1) = [] /\ map (fun w => fst (fst w)) (wakeups r1) = [108] /\
+  map (fun f => (fst (fst f), snd f)) (firelog r2) = [(108, 108)] /\ wakeups r2 = [].
+Proof. vm_compute. repeat split; reflexivity. Qed.
+Print Assumptions C06_run_loop_nonvacuous.
